@@ -103,3 +103,16 @@ package uncompng
 //@   mode bv
 //@   expand
 //@   ensures forall(i, 0, 256, crc32IEEETable[i] == crc8(uint32(i)))
+
+// The IEND chunk's CRC-32 (asserted byte by byte at the Write call sites as AE 42 60 82)
+// is the CRC-32 of the chunk type "IEND": one line per byte step, running value spelled out.
+//@ spec crcb(h uint32, v uint8) uint32 = crc8((h ^ uint32(v)) & 0xFF) ^ (h >> 8)
+//@ lemma iendcrc
+//@   prop C19
+//@   mode bv
+//@   expand
+//@   ensures crcb(0xFFFFFFFF, 'I') == 0x22FDE946
+//@   ensures crcb(0x22FDE946, 'E') == 0x992BAC53
+//@   ensures crcb(0x992BAC53, 'N') == 0x639F4775
+//@   ensures crcb(0x639F4775, 'D') == 0x51BD9F7D
+//@   ensures 0x51BD9F7D ^ 0xFFFFFFFF == 0xAE426082
